@@ -1,4 +1,5 @@
 import RimeModel.Session.GeoCtx
+import RimeModel.Session.GeoPrev
 /-! The geometric invariant is preserved by every processor, by the whole chain and by every API op.
 Mirrors `Session/InvProc.lean`. -/
 namespace RimeModel.Session
@@ -75,12 +76,13 @@ theorem spellerPost_geo (hrc : ComposeGeoSpec env.recompose) {r : Ctx × Bool} (
     · exact h
 
 /-- Schemas on which Speller::AutoSelectPreviousMatch returns at once (`auto_select` off, or a
-`max_code_length` set).  The geometric theorems are proved for these.  NOT proved for the remaining
-class (auto_select without a code-length bound): AutoSelectPreviousMatch pops the last segment and
-pushes back the copy it took before the key was added, without comparing positions; that the copy
-starts where the popped segment started is a relation between Compose on `input` and on
-`input ++ [key]` (the abc segmentor extends the last segment in place) which the invariant
-over single states does not carry.  That class is tied by the differential runs (schema `vs_auto`). -/
+`max_code_length` set).  The geometric theorems are proved for these.  For the remaining class (auto_select
+without a code-length bound) the statement is FALSE in general: AutoSelectPreviousMatch pops the last segment
+and pushes back the copy it took before the key was added, without comparing positions, and when the key opened
+a new segment behind the saved one (a punctuation segment with alternatives, a raw segment with candidates) the
+copy lands behind itself — `Session/GeoPrevCx.lean`, confirmed on librime.  What is proved for every schema:
+FindEarlierMatch keeps the invariant (`findEarlierMatch_geo`), and so does the whole speller key when the reuse
+branch is aligned (`Session/GeoPrev.lean`, `Session/GeoPrevProc.lean`). -/
 def NoPrevMatch (env : Env) : Prop := env.autoSelect = false ∨ env.maxCodeLength > 0
 
 theorem autoSelectPreviousMatch_off (hnp : NoPrevMatch env) (prev : Option Seg) (c : Ctx) :
